@@ -59,6 +59,10 @@ def cases_for(ctx):
                       'shared_results': True, 'pair': 'S'})
     # a replay leaves a non-daemon timer behind that outlasts the timeout: recycling that worker is slow, the NEXT recording is still healthy
     cases.append({'behaviours': ['equal', 'leaves_timer', 'equal', 'different', 'leaves_timer', 'equal', 'equal'], 'dedicated': True, 'recycle': 2, 'keep': False})
+    # recordings identified by position (ids 0, 1, 2 ...: the first one is falsy); a replay that ends its process with status 0
+    cases.append({'behaviours': ['equal', 'different', 'equal', 'player_raises'], 'dedicated': True, 'recycle': 5, 'keep': True, 'int_ids': True, 'pair': 'I'})
+    cases.append({'behaviours': ['equal', 'different', 'equal', 'player_raises'], 'dedicated': False, 'recycle': 5, 'keep': True, 'int_ids': True, 'pair': 'I'})
+    cases.append({'behaviours': ['equal', 'exit0', 'different', 'equal'], 'dedicated': True, 'recycle': 5, 'keep': False})
     # an equalizer built without a configuration next to another such equalizer whose settings were changed after construction
     cases.append({'behaviours': ['equal', 'different', 'player_raises', 'equal'], 'dedicated': False, 'recycle': 5, 'keep': False, 'default_config': True})
     if ctx.quick:
